@@ -26,7 +26,7 @@ from engines.calcworld import ALL_WORLDS, CHEM, CRYSTALS, QUICK_WORLDS, Pool, Si
 OM2 = {"default": {}, "small": {"large_om2": 0.0}, "large": {"large_om2": float("inf")}}
 SCRIBBLES = ("scale", "zero", "nan", "add")
 BADKINDS = ("nanT0", "infT0", "shortT1", "longT0", "nanV")
-AUX = ("omegalist1", "omegalist2", "tags2preene", "preene2betafree", "tracer", "str")
+AUX = ("omegalist1", "omegalist2", "tags2preene", "preene2betafree", "tracer", "str", "states1", "states2", "interact")
 COMPONENTS = ("gfcalc", "gfcalc-many", "thermo", "kinetic", "NNstar", "GFstarset", "vkinetic", "taylor", "yaml:crystal", "yaml:crystal-extra",
               "yaml:crystal-simple", "yaml:groupop", "yaml:pairstate", "yaml:clustersite", "yaml:cluster", "yaml:vtk", "vtkdict")
 
@@ -470,6 +470,15 @@ class Run(RunBase):
             elif what == "tracer":
                 td = calc.tags2preene(self.pool.usertagdict(op["k"]))
                 arrays = list(calc.maketracerpreene(**td).values())
+            elif what in ("states1", "states2", "interact"):
+                # the PairState objects the queries hand out: the caller converts their vectors in place (to other
+                # units, say) -- arrays returned by earlier calls, modified by the caller
+                if what == "interact":
+                    states = list(calc.interactlist())
+                else:
+                    states = [ps for pair in calc.omegalist(1 if what == "states1" else 2)[0] for ps in pair]
+                arrays = [ps.dx for ps in states if isinstance(getattr(ps, "dx", None), np.ndarray)]
+                self.probes["scribble-on-returned-states"] += 1
             else:
                 str(calc)
             for a in arrays:
